@@ -44,6 +44,7 @@ CATALOGUE = {
                            "  end select pick\n  wh: where (a > 0)\n    a = 6\n  elsewhere wh\n    a = 7\n  end where wh\n  as: associate (b => a(1))\n    b = 8\n  end associate as\n"
                            "  fa: forall (i = 1:n)\n    a(i) = 9\n  end forall fa\nend subroutine nm\n"),
     "two_units": "subroutine a\nend subroutine a\nfunction b()\n  b = 1\nend function b\n",
+    "anonymous_main": "integer :: a, b(3)\nreal :: x\na = 1\nif (a > 0) then\n  b(a) = 2\nend if\ncall s(a)\nend\nsubroutine s(k)\n  integer :: k\n  k = k + 1\nend subroutine s\n",
 }
 F2008_EXTRA = {
     "block_critical": "program b\n  block\n    integer :: j\n    j = 1\n  end block\n  critical\n    i = 2\n  end critical\n  do concurrent (i = 1:3)\n    x = i\n  end do\n  error stop\nend program b\n",
@@ -350,8 +351,10 @@ def main(argv):
                     # the syntactic place of the edit (used to identify known findings by their site)
                     low = v.strip().lower()
                     place = "other"
-                    if _re2.search(r"intent\s*\(\s*(in|out|inout)\s*\)\s*\)", low):
+                    if _re2.search(r"intent\s*\(\s*(in|out|inout|in\s+out)\s*\)\s*\)", low):
                         place = "surplus_parenthesis_after_intent"
+                    elif _re2.search(r"^(integer|real|complex|logical|character|double\s*precision|type\s+is\s*\(\s*(integer|real|complex|logical|character))\s*\)?\s*\)", low):
+                        place = "one_character_kind_selector"        # '<intrinsic type> )': the text after the type name is the single character ')'
                     elif _re2.search(r"\b(operator|assignment)\s*\(", low) or _re2.search(r"\b(operator|assignment)\s*=", low):
                         place = "generic_spec"
                     elif low.startswith("implicit"):
@@ -462,7 +465,7 @@ def main(argv):
                     except BaseException as e:  # noqa
                         fail("parser#ill_nested_rejected", dict(program=name, std=std, inserted_line=extra, source=src), "raised %s instead of FortranSyntaxError" % type(e).__name__)
     if "C07" in only:
-        for name in ("plain", "module", "select_where", "io_format", "two_units", "named_constructs"):
+        for name in ("plain", "module", "select_where", "io_format", "two_units", "named_constructs", "anonymous_main"):
             lines = CATALOGUE[name].splitlines()
             for li in range(len(lines)):
                 if lines[li].strip().lower().startswith(("end", "contains", "else", "case", "elsewhere")) or li == 0:
